@@ -2,6 +2,7 @@ package main
 
 import (
 	"fmt"
+	"sort"
 	"go/token"
 	"go/types"
 	"strings"
@@ -413,6 +414,13 @@ func (fr *Frame) callWithContract(st *State, c *FuncContract, fn *ssa.Function, 
 			env.vars[fmt.Sprintf("%s_r%d", pnames[i], k)] = v
 		}
 	}
+	for i, a := range args {
+		cl, ok := a.X.(*Closure)
+		if !ok || i >= len(pnames) || c.Calls[pnames[i]] != "loop" {
+			continue
+		}
+		fr.callbackLoop(st, cl, pnames[i], env, pos)
+	}
 	// frame
 	if len(c.Assigns) > 0 {
 		var heapPats []string
@@ -551,6 +559,136 @@ func resultNames(sig *types.Signature, c *FuncContract) []string {
 		out = append(out, n)
 	}
 	return out
+}
+
+// callbackLoop: the callee invokes the closure any number of times, one after
+// the other, and stops at the first invocation that returns an error (`calls P
+// loop`). The closure body is a loop body: the caller's `callback N invariant`
+// clauses must hold before the first invocation and be preserved by every
+// invocation that returns nil. In clauses, _n is the number of completed
+// invocations and _a0(i), _a1(i) are the arguments of invocation i.
+func (fr *Frame) callbackLoop(st *State, cl *Closure, pname string, env *SpecEnv, pos token.Pos) {
+	x := fr.x
+	ord := x.w.funcLitOrdinal(cl.fn)
+	var invs []*Clause
+	if top := x.top; top != nil {
+		if oc := x.w.contractFor(top.outermost()); oc != nil {
+			invs = oc.Inv[-ord]
+		}
+	}
+	csig := cl.fn.Signature
+	ci := &cbInfo{ord: ord}
+	for k := 0; k < csig.Params().Len(); k++ {
+		t := csig.Params().At(k).Type()
+		var arrs []string
+		for l, s := range leafSorts(t) {
+			arrs = append(arrs, x.vc.declare(fmt.Sprintf("cb%d_a%d_%d", ord, k, l), arrSort(s)))
+		}
+		ci.args = append(ci.args, arrs)
+		ci.ptypes = append(ci.ptypes, t)
+	}
+	if x.cbs == nil {
+		x.cbs = map[int]*cbInfo{}
+	}
+	x.cbs[ord] = ci
+	ci.count = "0"
+	label := fmt.Sprintf("callback %d", ord)
+	pre := st.clone()
+	evalInv := func(s *State, n string, c *Clause) string {
+		e := fr.specEnv(s)
+		e.vars = map[string]*Val{}
+		e.lookup = func(ss *State, name string) (*Val, bool) { return fr.lookupLocal(ss, name, cl.fn.Pos()) }
+		e.cbOrd, e.cbN, e.entry = ord, n, pre
+		g, err := e.evalBool(c.Expr)
+		if err != nil {
+			x.vc.diag("%s: %s invariant %q: %v", fr.fn.String(), label, c.Text, err)
+			return "false"
+		}
+		return g
+	}
+	for _, c := range invs {
+		x.oblige(st, "cb-entry", label+": "+c.Text, pos, evalInv(st, "0", c), c.Tags, false)
+	}
+	// havoc what an invocation may write
+	nf := x.newFrame(cl.fn, fr)
+	for i, fv := range cl.fn.FreeVars {
+		if i < len(cl.bindings) {
+			nf.freeVars[fv] = cl.bindings[i]
+		}
+	}
+	all := &loopInfo{header: cl.fn.Blocks[0], body: map[*ssa.BasicBlock]bool{}}
+	for _, b := range cl.fn.Blocks {
+		all.body[b] = true
+	}
+	mods := nf.loopModifies(all)
+	x.bumpAllocTop(st)
+	ne := x.vc.fresh("events", sInt)
+	x.vc.assume(tCmp(">=", ne, st.events))
+	st.events = ne
+	if mods.all {
+		x.havocAllHeaps(st)
+	} else {
+		x.havocHeapsMatching(st, mods.heaps)
+	}
+	var cells []*Cell
+	for c := range mods.cells {
+		cells = append(cells, c)
+	}
+	sort.Slice(cells, func(i, j int) bool { return cells[i].id < cells[j].id })
+	for _, c := range cells {
+		nv := x.freshVal(c.name, c.ty)
+		x.refFacts(st, nv)
+		st.cells[c] = nv
+	}
+	n := x.vc.fresh("cbn", sInt)
+	x.vc.assume(tCmp("<=", "0", n))
+	st.pc = x.vc.def("pc", sBool, st.pc)
+	for _, c := range invs {
+		x.vc.assume(tImp(st.pc, evalInv(st, n, c)))
+	}
+	after := st.clone() // iteration over, no invocation failed
+	// one more invocation
+	var cargs []*Val
+	for k := range ci.args {
+		v := &Val{Ty: ci.ptypes[k], L: make([]string, len(ci.args[k]))}
+		for l, a := range ci.args[k] {
+			v.L[l] = tSel(a, n)
+		}
+		x.typeFacts(v)
+		x.refFacts(st, v)
+		cargs = append(cargs, v)
+	}
+	// facts the contract author assumes about every argument tuple (listed)
+	if top := x.top; top != nil {
+		if oc := x.w.contractFor(top.outermost()); oc != nil {
+			for _, c := range oc.Inv[-ord-1000] {
+				x.vc.assume(tImp(st.pc, evalInv(st, n, c)))
+			}
+		}
+	}
+	vals := fr.inlineCall(st, cl.fn, cl.bindings, cargs, pos)
+	errT := "0"
+	if len(vals) > 0 {
+		errT = vals[len(vals)-1].L[0]
+	}
+	cont := st.clone()
+	cont.pc = x.vc.def("pc", sBool, tAnd(st.pc, tEq(errT, "0")))
+	for _, c := range invs {
+		x.oblige(cont, "cb-pres", label+": "+c.Text, pos, evalInv(cont, tAdd(n, "1"), c), c.Tags, false)
+	}
+	stopped := x.vc.fresh("cbstopped", sBool)
+	after.pc = x.vc.def("pc", sBool, tAnd(after.pc, tNot(stopped)))
+	st.pc = x.vc.def("pc", sBool, tAnd(st.pc, tNot(tEq(errT, "0")), stopped))
+	m := x.mergeStates([]*State{after, st})
+	if m == nil {
+		st.pc = "false"
+		return
+	}
+	*st = *m
+	ci.count = x.vc.def("cbcount", sInt, tIte(stopped, tAdd(n, "1"), n))
+	errTy := types.Universe.Lookup("error").Type()
+	env.vars[pname+"_err"] = &Val{Ty: errTy, L: []string{tIte(stopped, errT, "0")}}
+	env.vars[pname+"_stopped"] = mkBool(stopped)
 }
 
 // crashCheck asserts the crash invariants of the function under verification
